@@ -28,14 +28,23 @@
 //! session; split points wait on sozu's read counter instead of sleeping; receivers re-arm
 //! TCP_QUICKACK and no socket buffer below 16 KB is used on a receive side (silly-window stalls).
 //!
-//! Attribution by observation of sozu's own accounting (QueryMetrics on the lab worker, after every
-//! session): a session during which `tcp.infinite_loop.error` / `http.infinite_loop.error` moved was
-//! ended by sozu's loop-iteration guard and whatever is missing in either direction is reported as
-//! `.../session_cut_mid_transfer`; a session that got no backend connection is a violation only if
-//! sozu wrote nothing and has no backend connection error on record (else inconclusive).
+//! Attribution by observation, not by script shape:
+//!  * sozu's own accounting (one QueryMetrics on the lab worker after every session): a session
+//!    during which `tcp.infinite_loop.error` / `http.infinite_loop.error` moved was ended by sozu's
+//!    loop-iteration guard, and whatever is missing in either direction is reported as
+//!    `.../session_cut_mid_transfer`;
+//!  * `.../opposite_direction_busy`: the judged sender had finished and ended its stream while, in
+//!    the opposite direction, the peer had written more bytes than ever came out of sozu (byte
+//!    counts of both scripted peers); the plain signature is kept for sessions whose opposite
+//!    direction was delivered completely;
+//!  * a session that got no backend connection is a violation only if sozu wrote nothing and did
+//!    not record a failed backend connection (`backend.connections.error` / `backend.down`) in the
+//!    last 40 s — sozu counts a backend that sends FIN before any byte as a failed connect and then
+//!    holds the backend back (retry policy, 1..32 s): those refusals are inconclusive here.
 //!
 //! Debug aids: `VH_C18_TRACE=1` prints one line per session; `--opt only=<modes>`,
-//! `--opt kind=random|sweep|malformed`, `--opt max_cells=N`, `--opt scale=N`, `--opt max_size=N`.
+//! `--opt kind=random|sweep|malformed`, `--opt max_cells=N`, `--opt scale=N`, `--opt max_size=N`,
+//! `--opt only_session=K` (with --replay: run only session K of the replayed cells).
 
 mod engine;
 mod pp;
@@ -637,61 +646,37 @@ fn wait_accepted(p: &sozu_lib::verif::Probe, n: usize, limit: Duration) -> bool 
     true
 }
 
-/// How many sessions this worker ended through its loop-iteration guard so far: sozu's own
-/// counters `tcp.infinite_loop.error` (TcpSession::ready_inner) and `http.infinite_loop.error`
-/// (Pipe::ready of an upgraded WebSocket), read with the QueryMetrics command.
-fn loop_guard_count(w: &mut Worker) -> Option<i64> {
-    let names = ["tcp.infinite_loop.error", "http.infinite_loop.error"];
+/// sozu's own accounting, read with one QueryMetrics command on the lab worker:
+/// * sessions ended through the loop-iteration guard: `tcp.infinite_loop.error`
+///   (TcpSession::ready_inner) + `http.infinite_loop.error` (Pipe::ready of an upgraded WebSocket);
+/// * failed connections to the cell's backend: `backend.connections.error` + `backend.down` (sozu
+///   counts a backend that sends FIN before any byte as a failed connect, tcp.rs test_back_socket,
+///   and then holds the backend back for 1..32 s: retry policy).
+fn sozu_accounting(w: &mut Worker) -> Option<(i64, i64)> {
+    let guard = ["tcp.infinite_loop.error", "http.infinite_loop.error"];
+    let fail = ["backend.connections.error", "backend.down"];
     let r = w
         .call(
             RequestType::QueryMetrics(QueryMetricsOptions {
                 list: false,
                 cluster_ids: vec![],
                 backend_ids: vec![],
-                metric_names: names.iter().map(|n| (*n).to_owned()).collect(),
-                no_clusters: true,
-                workers: false,
-            }),
-            Duration::from_secs(3),
-        )
-        .ok()?;
-    match r.content {
-        Some(ResponseContent { content_type: Some(ContentType::WorkerMetrics(m)) }) => Some(
-            names
-                .iter()
-                .map(|n| match m.proxy.get(*n).and_then(|f| f.inner.as_ref()) {
-                    Some(Inner::Count(v)) => *v,
-                    _ => 0,
-                })
-                .sum(),
-        ),
-        _ => None,
-    }
-}
-
-/// sozu's own record of failed connections to the cell's backend (`backend.connections.error`,
-/// `backend.down`, cluster and backend level), read with the QueryMetrics command
-fn backend_failure_count(w: &mut Worker) -> Option<i64> {
-    let r = w
-        .call(
-            RequestType::QueryMetrics(QueryMetricsOptions {
-                list: false,
-                cluster_ids: vec!["c18".to_owned()],
-                backend_ids: vec![],
-                metric_names: vec!["backend.connections.error".to_owned(), "backend.down".to_owned()],
+                metric_names: guard.iter().chain(fail.iter()).map(|n| (*n).to_owned()).collect(),
                 no_clusters: false,
                 workers: false,
             }),
             Duration::from_secs(3),
         )
         .ok()?;
-    let count = |m: &std::collections::BTreeMap<String, sozu_command_lib::proto::command::FilteredMetrics>| -> i64 {
-        m.values().map(|f| match f.inner.as_ref() { Some(Inner::Count(v)) => *v, _ => 0 }).sum()
+    let count = |m: &std::collections::BTreeMap<String, sozu_command_lib::proto::command::FilteredMetrics>, names: &[&str]| -> i64 {
+        names.iter().map(|n| match m.get(*n).and_then(|f| f.inner.as_ref()) { Some(Inner::Count(v)) => *v, _ => 0 }).sum()
     };
     match r.content {
-        Some(ResponseContent { content_type: Some(ContentType::WorkerMetrics(m)) }) => Some(
-            m.clusters.values().map(|c| count(&c.cluster) + c.backends.iter().map(|b| count(&b.metrics)).sum::<i64>()).sum(),
-        ),
+        Some(ResponseContent { content_type: Some(ContentType::WorkerMetrics(m)) }) => Some((
+            count(&m.proxy, &guard),
+            count(&m.proxy, &fail)
+                + m.clusters.values().map(|c| count(&c.cluster, &fail) + c.backends.iter().map(|b| count(&b.metrics, &fail)).sum::<i64>()).sum::<i64>(),
+        )),
         _ => None,
     }
 }
@@ -707,8 +692,9 @@ struct NoBackend {
     sozu_wrote: u64,
     /// connections the scripted backend accepted during the session, markers included
     backend_accepted: usize,
-    /// sozu's `backend.connections.error` + `backend.down` counters for the cluster (None: query failed)
-    backend_failures: Option<i64>,
+    /// sozu recorded a failed connection to its backend less than 40 s ago (its retry policy holds
+    /// the backend back for up to 32 s); None: the metrics query failed
+    backend_held_back: Option<bool>,
 }
 
 struct Ran {
@@ -1139,7 +1125,9 @@ fn judge(env: &Env, spec: &SessionSpec, ran: &Ran, rep: &mut Report) -> Verdict 
         return Verdict::Held;
     }
     let either = verdict == Some(HdrVerdict::Lenient) || relay_oversize_open;
-    if mode.incoming_header() && either && forwarded == 0 && ended(c) && c.recv.payload < spec.b2c.max(1) {
+    // (the client may also have left on its own, `Complete`, when it expects no backend byte: a
+    // header sozu may refuse and nothing forwarded is a permitted outcome either way)
+    if mode.incoming_header() && either && forwarded == 0 && (ended(c) || c.end == End::Complete) && c.recv.payload < spec.b2c.max(1) {
         rep.obs(&format!("{}_optional_header_rejected_exempt", mode.name()), 1);
         return Verdict::Held;
     }
@@ -1229,6 +1217,11 @@ fn judge(env: &Env, spec: &SessionSpec, ran: &Ran, rep: &mut Report) -> Verdict 
         };
         if mode.incoming_header() && dir == "client_to_backend" && verdict == Some(HdrVerdict::Valid) && got == 0 && client_waiting {
             let connected = receiver.is_some_and(|r| r.recv.raw > 0);
+            if receiver.is_none() && ran.no_backend.as_ref().is_some_and(|nb| nb.backend_held_back != Some(false)) {
+                return Some(Verdict::Inconclusive(
+                    "sozu closed the session without connecting: it recorded a failed backend connection less than 40 s ago (retry policy)".into(),
+                ));
+            }
             if !connected && ended(c) {
                 return Some(Verdict::Violation(
                     format!("{}/valid_header_rejected/{hdr_sig}", mode.name()),
@@ -1245,8 +1238,16 @@ fn judge(env: &Env, spec: &SessionSpec, ran: &Ran, rep: &mut Report) -> Verdict 
         // When the opposite direction is still carrying data at the moment sozu ends the session,
         // its close is abortive (unread input => RST) and destroys what it had already written:
         // a different mechanism, reported under its own signature.
-        let opposite_len = if dir == "client_to_backend" { spec.b2c } else { spec.c2b };
-        let busy = matches!(spec.script, Script::HalfClose { late: false, .. }) && opposite_len > 0;
+        // Observed, not inferred from the script: this direction's sender had finished and ended its
+        // stream, and in the opposite direction the peer had written more bytes than ever came out
+        // of sozu (bytes joined to a PROXY header count): sozu ended the session on the first
+        // end-of-stream while the other direction was carrying data.
+        let (opposite_written, opposite_received) = if dir == "client_to_backend" {
+            (b.map(|b| b.sent).unwrap_or(0), c.recv.payload + c.recv.after_mismatch)
+        } else {
+            (c.sent, b.map(|b| b.recv.payload + b.recv.after_mismatch).unwrap_or(0))
+        };
+        let busy = sender.send_done && opposite_written > opposite_received;
         // sozu ended the session itself through its loop-iteration guard (MAX_LOOP_ITERATIONS turns
         // of one ready() call without either socket blocking): observed on sozu's own
         // `tcp.infinite_loop.error` / `http.infinite_loop.error` counters, which moved during this
@@ -1258,7 +1259,7 @@ fn judge(env: &Env, spec: &SessionSpec, ran: &Ran, rep: &mut Report) -> Verdict 
                 let _ = rep;
                 Some(Verdict::Violation(
                     format!("{p}/eos_before_all_bytes/{dir}{variant}"),
-                    format!("{dir}: the receiver observed end-of-stream ({:?}) after {got} of {len} bytes{}{}", r.end, if sender.send_done { " (all of them written before the sender ended its stream)" } else { " (the sender was cut while writing)" }, if busy { "; the opposite direction was still carrying data" } else { "" }),
+                    format!("{dir}: the receiver observed end-of-stream ({:?}) after {got} of {len} bytes{}{}", r.end, if sender.send_done { " (all of them written before the sender ended its stream)" } else { " (the sender was cut while writing)" }, if busy { format!("; the opposite direction was still carrying data ({opposite_received} of the {opposite_written} bytes written there had come out)") } else { String::new() }),
                 ))
             }
             None if ended(c) && dir == "client_to_backend" => match &ran.no_backend {
@@ -1268,10 +1269,9 @@ fn judge(env: &Env, spec: &SessionSpec, ran: &Ran, rep: &mut Report) -> Verdict 
                     nb.sozu_wrote
                 ))),
                 // sozu refuses sessions while it holds its backend for failed/down: eligibility is not this property
-                Some(nb) if nb.backend_failures.is_none_or(|f| f > 0) => Some(Verdict::Inconclusive(format!(
-                    "sozu closed the session without connecting: its backend has connection errors on record ({:?})",
-                    nb.backend_failures
-                ))),
+                Some(nb) if nb.backend_held_back != Some(false) => Some(Verdict::Inconclusive(
+                    "sozu closed the session without connecting: it recorded a failed backend connection less than 40 s ago (retry policy)".into(),
+                )),
                 _ => Some(Verdict::Violation(
                     format!("{p}/eos_before_all_bytes/{dir}"),
                     format!("{dir}: the session was closed without any backend connection carrying the {len} byte(s) sent (sozu wrote nothing and has no backend failure on record)"),
@@ -1511,12 +1511,16 @@ fn run_cell(ctx: &Ctx, cell: &CellSpec, rep: &mut Report, shared: &CellShared, i
     };
     rep.obs("cells", 1);
     rep.obs(&format!("cells_mode_{}", cell.mode.name()), 1);
-    let mut loop_guard_seen = loop_guard_count(&mut w).unwrap_or(0);
+    let (mut loop_guard_seen, mut backend_failures_seen) = sozu_accounting(&mut w).unwrap_or((0, 0));
+    let mut backend_failure_at: Option<Instant> = None;
     let mut strikes = 0;
     let mut abandoned = false;
     let sessions: Vec<SessionSpec> = match isolated {
         Some(s) => vec![s.clone()],
-        None => (0..cell.n_sessions).map(|k| gen_session(cell, ctx.seed, k, &sweep, &malformed)).collect(),
+        None => (0..cell.n_sessions)
+            .filter(|k| ctx.opt("only_session").and_then(|v| v.parse::<u64>().ok()).is_none_or(|only| only == *k))
+            .map(|k| gen_session(cell, ctx.seed, k, &sweep, &malformed))
+            .collect(),
     };
     let mut sweep_done = 0u64;
     for spec in &sessions {
@@ -1529,22 +1533,28 @@ fn run_cell(ctx: &Ctx, cell: &CellSpec, rep: &mut Report, shared: &CellShared, i
         let accepted_before = backend.accepted.load(Ordering::SeqCst);
         let accepts = accept_count(&probe);
         let mut ran = run_session(&env, spec, &mut w);
-        if ran.backend.is_none() && ran.client.is_some() && w.is_running() && !ran.wedged {
-            ran.no_backend = Some(NoBackend {
-                sozu_wrote: (probe.counter("io.tcp.write.bytes") + probe.counter("io.session_tcp.write.bytes")).saturating_sub(wrote_before),
-                backend_accepted: backend.accepted.load(Ordering::SeqCst).saturating_sub(accepted_before),
-                backend_failures: backend_failure_count(&mut w),
-            });
-        }
         if w.is_running() && !ran.wedged {
-            if let Some(g) = loop_guard_count(&mut w) {
-                if g > loop_guard_seen {
+            let accounting = sozu_accounting(&mut w);
+            if let Some((guard, failures)) = accounting {
+                if guard > loop_guard_seen {
                     ran.cut_by_loop_guard = true;
                     rep.obs("sessions_ended_by_sozu_loop_iteration_guard", 1);
                 }
-                loop_guard_seen = g;
+                loop_guard_seen = guard;
+                if failures > backend_failures_seen {
+                    backend_failure_at = Some(Instant::now());
+                    rep.obs("backend_connection_failures_recorded_by_sozu", (failures - backend_failures_seen) as u64);
+                }
+                backend_failures_seen = failures;
             } else {
-                rep.obs("loop_guard_metric_query_failed", 1);
+                rep.obs("sozu_metrics_query_failed", 1);
+            }
+            if ran.backend.is_none() && ran.client.is_some() {
+                ran.no_backend = Some(NoBackend {
+                    sozu_wrote: (probe.counter("io.tcp.write.bytes") + probe.counter("io.session_tcp.write.bytes")).saturating_sub(wrote_before),
+                    backend_accepted: backend.accepted.load(Ordering::SeqCst).saturating_sub(accepted_before),
+                    backend_held_back: accounting.map(|_| backend_failure_at.is_some_and(|t| t.elapsed() < Duration::from_secs(40))),
+                });
             }
         }
         if ran.connect_error.is_none() && w.is_running() && !ran.wedged && !wait_accepted(&probe, accepts + 1, Duration::from_secs(2)) {
